@@ -254,6 +254,46 @@ Section Generic.
     rewrite map_app, Hev, F11, Hit. cbn. reflexivity.
   Qed.
 
+  (* the acceptance series (one entry per kernel invocation): iterations, plus one when the final
+     enlargement runs the kernel once more *)
+  Lemma finish_nmut o st out evs :
+    FINISH o st = (out, evs) ->
+    h_nmut _ _ (o_hist _ _ _ out)
+    = match n_final _ o with
+      | Some n => if Nat.eqb (psize (s_pop _ _ _ st)) n then h_nmut _ _ (s_hist _ _ _ st)
+                  else S (h_nmut _ _ (s_hist _ _ _ st))
+      | None => h_nmut _ _ (s_hist _ _ _ st)
+      end.
+  Proof.
+    unfold finish, finish_state, enlarge. intros H.
+    destruct (n_final N o) as [n|].
+    - destruct (Nat.eqb (psize (s_pop _ _ _ st)) n).
+      + inversion H; subst; reflexivity.
+      + destruct (resample N P G pbeta resample_o (s_g _ _ _ st) (s_pop _ _ _ st) (one N) (Some n)) as [p1 g1].
+        destruct (mutate_o g1 p1 (one N) true) as [p2 g2]. inversion H; subst; reflexivity.
+    - inversion H; subst; reflexivity.
+  Qed.
+
+  Theorem sample_nmut fuel o p0 g0 out evs :
+    SAMPLE fuel o p0 g0 = Ok (out, evs) ->
+    h_nmut _ _ (o_hist _ _ _ out) = o_iter _ _ _ out
+    \/ (h_nmut _ _ (o_hist _ _ _ out) = S (o_iter _ _ _ out)
+        /\ exists n, n_final _ o = Some n /\ psize (o_pop _ _ _ out) = psize (o_pop _ _ _ out)).
+  Proof.
+    unfold sample, run_from. intros H.
+    destruct (LOOP fuel o (init_state N P G o p0 g0)) as [[stf ev1]| |] eqn:Hl; try discriminate.
+    destruct (FINISH o stf) as [out' ev2] eqn:Hf. inversion H; subst; clear H.
+    assert (Hok0 : trace_ok o ([] ++ [s_pop _ _ _ (init_state N P G o p0 g0)]) [] (s_hist _ _ _ (init_state N P G o p0 g0)))
+      by (cbn; apply trace_init).
+    destruct (loop_trace _ _ _ _ _ _ _ Hl Hok0) as (pops' & bs' & Hok & Hne & Hit & _).
+    apply trace_ok_spec in Hok as (_ & _ & _ & _ & _ & _ & _ & _ & H8).
+    pose proof (finish_nmut _ _ _ _ Hf) as Hn. apply finish_spec in Hf as (_ & _ & F3 & _).
+    rewrite F3, Hit. cbn [init_state s_iter plus app length] in *. rewrite H8 in Hn.
+    destruct (n_final N o) as [n|] eqn:En; [|left; exact Hn].
+    destruct (Nat.eqb (psize (s_pop _ _ _ stf)) n); [left; exact Hn|].
+    right. split; [exact Hn|]. exists n. auto.
+  Qed.
+
   (* series lengths: a corollary *)
   Corollary sample_lengths fuel o p0 g0 out evs :
     SAMPLE fuel o p0 g0 = Ok (out, evs) ->
